@@ -120,12 +120,13 @@ def shards(tier, seed):
     env_nvx = _private_nvx_env()
     thorough = tier == "thorough"
     hs_parts = 8 if thorough else 4
-    nego_parts = 12 if thorough else 2
+    nego_parts = 24 if thorough else 2
     for fw in ("tx", "aio"):
         def add(name, params, env=env_nvx):
             p = {"tier": tier, "seed": seed, "nvx": 1 if env is env_nvx else 0}
             p.update(params)
-            out.append({"name": "%s-%s" % (fw, name), "fw": fw, "env": env, "timeout": 2400, "params": p})
+            # generous: a loaded machine must never turn into a verdict (a timeout is INCONCLUSIVE anyway)
+            out.append({"name": "%s-%s" % (fw, name), "fw": fw, "env": env, "timeout": 14400, "params": p})
         for role in ("server", "client"):
             for i in range(hs_parts):
                 add("hs-%s-%d" % (role, i), {"what": "hs", "role": role, "part": i, "parts": hs_parts})
